@@ -7,6 +7,7 @@ package core
 
 import (
 	"path"
+	"strconv"
 
 	"github.com/martian-lang/martian/martian/util"
 )
@@ -177,3 +178,43 @@ func (self *Pipestance) VerifForkDirs() map[string][]string {
 }
 
 func VerifRelPath(p string) string { return util.RelPath(p) }
+
+// VerifForkInfo identifies one fork of a node: for every mapped call the fork
+// iterates over (by the call's id), the array index or map key it handles.
+type VerifForkInfo struct {
+	Node   string
+	Kind   string
+	Fqname string
+	Path   string
+	Index  map[string]string
+}
+
+// VerifForks lists every fork of every node.
+func (self *Pipestance) VerifForks() []VerifForkInfo {
+	var r []VerifForkInfo
+	for _, n := range self.allNodes() {
+		for _, f := range n.forks {
+			info := VerifForkInfo{
+				Node:   n.GetFQName(),
+				Kind:   string(n.call.Kind()),
+				Fqname: f.fqname,
+				Path:   f.path,
+				Index:  make(map[string]string, len(f.forkId)),
+			}
+			for _, part := range f.forkId {
+				key := "?"
+				switch id := part.Id.(type) {
+				case arrayIndexFork:
+					key = strconv.Itoa(int(id))
+				case mapKeyFork:
+					key = string(id)
+				case emptyFork:
+					key = "-"
+				}
+				info.Index[part.Split.Call.Id] = key
+			}
+			r = append(r, info)
+		}
+	}
+	return r
+}
